@@ -274,6 +274,30 @@ int unlinkat(int fd, const char *path, int flags) {
     return real_unlinkat(fd, path, flags);
 }
 
+// process creation and reaping by the driver binary (e.g. the `clang`
+// executable probe of include-path detection): yield points too
+#include <spawn.h>
+#include <sys/wait.h>
+int posix_spawn(pid_t *pid, const char *path, const posix_spawn_file_actions_t *fa,
+                const posix_spawnattr_t *attr, char *const argv[], char *const envp[]) {
+    REAL(int, posix_spawn, pid_t *, const char *, const posix_spawn_file_actions_t *, const posix_spawnattr_t *,
+         char *const[], char *const[]);
+    SYS_HOOK("spawn", path);
+    return real_posix_spawn(pid, path, fa, attr, argv, envp);
+}
+int posix_spawnp(pid_t *pid, const char *file, const posix_spawn_file_actions_t *fa,
+                 const posix_spawnattr_t *attr, char *const argv[], char *const envp[]) {
+    REAL(int, posix_spawnp, pid_t *, const char *, const posix_spawn_file_actions_t *, const posix_spawnattr_t *,
+         char *const[], char *const[]);
+    SYS_HOOK("spawn", file);
+    return real_posix_spawnp(pid, file, fa, attr, argv, envp);
+}
+pid_t waitpid(pid_t pid, int *status, int options) {
+    REAL(pid_t, waitpid, pid_t, int *, int);
+    SYS_HOOK("wait", "-");
+    return real_waitpid(pid, status, options);
+}
+
 // ------------------------------------------------------------------ stat family
 
 #define STAT_FAULT(path) \
